@@ -40,7 +40,12 @@ void remove_duplicate_include()
          //LOG_FMT(LRMRETURN, "%s(%d): orig line is %zu, orig col is %zu, Text() is '%s', type is %s, parent type is %s\n",
          //        __func__, __LINE__, next->GetOrigLine(), next->GetOrigCol(), next->Text(),
          //        get_token_name(next->GetType()), get_token_name(next->GetParentType()));
-         if (includes.empty())
+         if (next->IsComment())
+         {
+            // a comment stands where the file name is expected: leave the line alone
+            pc = next->GetNextNl();
+         }
+         else if (includes.empty())
          {
             includes.push_back(next);
             // goto next newline
